@@ -351,6 +351,20 @@ func fix(args []string, params *fixCommandParams) error {
 		return errors.New("fixing failed due to conflicts")
 	}
 
+	// the file provider only knows about the files provided for fixing, so a file moved to the
+	// location of any other existing file must be caught here, or that file would be overwritten
+	filesToFix := rutil.NewSet(absFiltered...)
+
+	for _, file := range fileProvider.ModifiedFiles() {
+		if filesToFix.Contains(file) {
+			continue
+		}
+
+		if _, err := os.Stat(file); err == nil {
+			return fmt.Errorf("fixing failed, as it would overwrite %s, which is not one of the files to fix", file)
+		}
+	}
+
 	if !params.dryRun && !params.force {
 		gitRepo, err := git.FindGitRepo(args...)
 		if err != nil {
